@@ -57,5 +57,7 @@ import Proofs.TieCtor
 #print axioms PV.Proofs.TieCtor.filterMap_range_eq_map
 #print axioms PV.Proofs.TieCtor.cycleTake_one
 #print axioms PV.Proofs.TieCtor.line2_new_tie
+#print axioms PV.Proofs.TieCtor.foldlM_push'
+#print axioms PV.Proofs.TieCtor.from_radial_loop_tie
 #print axioms PV.Proofs.TieCtor.from_radial_tie
 #print axioms PV.Proofs.TieCtor.polygon_tie
